@@ -320,6 +320,28 @@ def csvLoad (f8 : D) (fs : P → Option (File N D V)) (paths : List P) (o : Opts
 
 end generic
 
+/-! ### path resolution: `Dataset.get_abs_pathfilename_list`
+
+A listed file is an absolute path file name or one relative to the data set's root directory
+(`join` = `os.path.join(root_dir, ·)`).  The loop appends one resolved name per listed entry. -/
+
+inductive PathEntry (P : Type)
+  | abs (p : P)
+  | rel (p : P)
+  deriving DecidableEq, Repr
+
+def resolveEntry {P : Type} (join : P → P) : PathEntry P → P
+  | .abs p => p
+  | .rel p => join p
+
+/-- the loop of `get_abs_pathfilename_list` (`acc` = `abs_pathfilename_list` so far) -/
+def absPathsGo {P : Type} (join : P → P) : List (PathEntry P) → List P → List P
+  | [], acc => acc
+  | e :: es, acc => absPathsGo join es (acc ++ [resolveEntry join e])
+
+def getAbsPaths {P : Type} (join : P → P) (entries : List (PathEntry P)) : List P :=
+  absPathsGo join entries []
+
 /-! ### data field stages, renaming, Dataset.load_data / load_and_prepare_data -/
 
 structure Stages where
@@ -371,15 +393,18 @@ def dictSet (cols : List (Col N D V)) (c : Col N D V) : List (Col N D V) :=
   | [] => [c]
   | x :: xs => if x.name = c.name then c :: xs else x :: dictSet xs c
 
-/-- the loop of `DataFieldRecordArray.rename_fields` (`stale` = `field_name_list`, which is only
-refreshed after the loop) -/
+/-- the loop of `DataFieldRecordArray.rename_fields` on a copy of the field dictionary (`stale` =
+`field_name_list`, which is only refreshed after the loop): pop the old name, refuse (KeyError) when
+a field with the new name exists at that moment, else add the field under the new name. -/
 def renameGo (stale : List N) : List (N × N) → List (Col N D V) → Except Err (List (Col N D V))
   | [], cols => .ok cols
   | (o, n) :: rest, cols =>
     if o ∈ stale then
       match dictPop cols o with
       | none => .error .keyError
-      | some (c, cols') => renameGo stale rest (dictSet cols' { c with name := n })
+      | some (c, cols') =>
+        if n ∈ cols'.map (·.name) then .error .keyError
+        else renameGo stale rest (dictSet cols' { c with name := n })
     else renameGo stale rest cols
 
 def renameFields (ren : List (N × N)) (a : Arr N D V) : Except Err (Arr N D V) :=
